@@ -11,7 +11,7 @@ Import ListNotations.
 Open Scope Z_scope.
 
 Theorem C15_records_only_appended : forall nw fuel uops a w, exists l, f_out (exec_fact fuel uops a w nw) = l ++ f_out w.
-Proof. intros. apply (R_out_ext nw), R_exec_fact. Qed.
+Proof. intros. apply (R_out_ext MFull nw), R_exec_fact. reflexivity. Qed.
 
 Theorem C15_receive_record_payload : forall w l d nw it,
   f_out (rec_part w l d nw it) = FData l d [nw; item_id it; item_quality it; item_value it] :: f_out w.
